@@ -940,21 +940,53 @@ def kc1(ctx, R):
 
     def loops_of(site):
         f, c, sf, env = site
-        return list(env.get("<iter>", ()))
+        return [(resolve_params(it, f)[0], bv) for it, bv in env.get("<iter>", ())]
 
-    def resolve_params(v, f):
-        """replace parameters of a helper by the caller's arguments; returns (value, loops of the call site)"""
+    def ctor_bindings(k):
+        """field of a helper class -> (constructing function, constructor argument in its terms, its env), for a class constructed
+        at one place in the region"""
+        from .region import ctor_fields
+        key = ("ctor", k.qual)
+        if key in _bind_memo:
+            return _bind_memo[key]
+        out = _bind_memo.setdefault(key, {})
+        init = k.methods.get("__init__")
+        if init is None:
+            return out
+        cf = {fld: pn for _pos, (fld, pn) in ctor_fields(k).items()}
+        for g in reg:
+            sg = None
+            for c in walk_body(g.node):
+                if isinstance(c, ast.Call) and isinstance(c.func, (ast.Name, ast.Attribute)) and prog.resolve_class(g.module, c.func) is k:
+                    sg = sg or Sym(prog, g, g.cls, inline=False)
+                    e2, _ = sg.env_at(c)
+                    for fld, pn in cf.items():
+                        a = call_arg(prog, c, init, pn, sg, e2)
+                        if a is not None:
+                            out[fld] = (g, a, e2)
+        return out
+
+    def resolve_params(v, f, _depth=0):
+        """replace parameters of a helper by the caller's arguments, and fields of a helper object by the arguments it was
+        constructed with; returns (value, loops of the call site)"""
         extra = []
-        if v is None:
+        if v is None or _depth > 6:
             return v, extra
+        if f.cls is not None and f.cls is not fi.cls and f.cls.qual not in ("writer.RootObject", "writer.GroupObject", "writer.ChannelObject"):
+            for fld, (g, a, e2) in ctor_bindings(f.cls).items():
+                if find(v, ("self", fld)):
+                    a2, _more = resolve_params(a, g, _depth + 1) if g is not fi else (a, [])
+                    v = subst(v, ("self", fld), a2)
         b = bindings_of(f) if f is not fi else {}
         for p, (g, a, e2) in b.items():
             if find(v, ("param", p)):
                 v = subst(v, ("param", p), a)
-                extra = list(e2.get("<iter>", ()))
+                here = [(resolve_params(it, g, _depth + 1)[0], bv) for it, bv in e2.get("<iter>", ())]
                 if g is not fi:
-                    v, more = resolve_params(v, g)
-                    extra = more + extra
+                    v, more = resolve_params(v, g, _depth + 1)
+                    here = more + here
+                if len(here) > len(extra):
+                    extra = here
         return v, extra
 
     def is_src(x):
@@ -974,7 +1006,7 @@ def kc1(ctx, R):
         ok = False
         if gl:
             it, bv = gl[-1]
-            its, _x = resolve_params(it[2], st[0])
+            its = it[2]
             ok = its == SRC and gname == ("attr", bv, "name") and gprops == ("attr", bv, "properties")
         R.check(ok, "writer.TdmsWriter.defragment::GroupObject(group.name, group.properties)", st[0].where(st[1]),
                 "group name and properties copied for each group of file.groups()", "GroupObject(%s, %s) in loops %s" % (
@@ -1032,7 +1064,8 @@ def kc1(ctx, R):
     written = True
     for name, lst in sites.items():
         for f, c, sf, env in lst:
-            direct = any(isinstance(x, ast.Call) and any(t.qual == ws_q for t, _k in resolve_call(prog, f, f.cls, x)) and any(y is c for y in ast.walk(x))
+            from .region import call_reaches
+            direct = any(isinstance(x, ast.Call) and x is not c and call_reaches(ctx, f, x, {ws_q}) and any(y is c for y in ast.walk(x))
                          for x in walk_body(f.node))
             if direct:
                 continue
@@ -1047,7 +1080,7 @@ def kc1(ctx, R):
                                      for x in node_calls(n)))
         if wn:
             loop_writes = True
-    any_indirect = any(not any(isinstance(x, ast.Call) and any(t.qual == ws_q for t, _k in resolve_call(prog, f, f.cls, x)) and any(y is c for y in ast.walk(x))
+    any_indirect = any(not any(isinstance(x, ast.Call) and x is not c and call_reaches(ctx, f, x, {ws_q}) and any(y is c for y in ast.walk(x))
                                for x in walk_body(f.node)) for lst in sites.values() for f, c, sf, env in lst)
     R.check(written and (loop_writes or not any_indirect), "writer.TdmsWriter.defragment::constructed objects are written", fi.where(),
             "every constructed object is handed to write_segment", "an object is constructed but not handed to write_segment")
